@@ -29,4 +29,3 @@ func MainnetHeader() *Header {
 	copy(h.Nonce[:], unhex("f400cd0006070c49"))
 	return h
 }
-
